@@ -237,6 +237,15 @@ theorem C15_multimap_end_rejected (m : MMap) (cs : Cells) (it : VIt) (hv : it.vi
     m.vderef cs it = none ∧ (∀ to, MMap.vinc cs it to = none) ∧ (∀ to, m.remove cs it to = none) :=
   MMap.value_end_rejected m cs it hv
 
+/-- "an end/empty iterator where an element is required", key iterators: the position of an absent key and the default-constructed
+    key iterator are rejected by `keyIter->`, `++`, Add(keyIter, value), Remove(keyIter, index), RemoveValues, RemoveKey, ResetKey and
+    MakeIterator(keyIter, index > 0) -/
+theorem C15_multimap_key_empty_rejected (m : MMap) (cs : Cells) (h : HPos) (he : h.elem = none) :
+    m.kderef cs h = none ∧ (∀ n, h.inc cs n = none) ∧ (∀ v, m.addAt cs h v = none) ∧ (∀ i to, m.removeAt cs h i to = none) ∧
+    (∀ to, m.removeValues cs h to = none) ∧ (∀ nx, m.removeKey cs h nx = none) ∧ (∀ k, m.resetKey cs h k = none) ∧
+    (∀ i to, i ≠ 0 → m.makeIt cs h i to = none) :=
+  MMap.key_empty_rejected m cs h he
+
 theorem C15_multimap_value_fresh_accepted (m : MMap) (cs : Cells) (k i : Nat) (mv : Bool) (vs : List Nat)
     (hk : m.vals k = some vs) (hi : i < vs.length) :
     let it : VIt := ⟨⟨snap cs m.kcell, some k, mv⟩, snap cs m.vcell, some i⟩
@@ -254,6 +263,87 @@ theorem C15_multimap_key_fresh_accepted (m : MMap) (cs : Cells) (k : Nat) (mv : 
 
 theorem C15_multimap_rejected_unchanged (w : MWorld) (op : MOp) (h : (w.step op).2 = none) : (w.step op).1 = w :=
   MWorld.step_reject_unchanged w op h
+
+/-- "an iterator of another container", key iterators: every entry point of map `o` (Add(keyIter, value), AddKeyCrt,
+    Remove(keyIter, index), RemoveValues, RemoveKey, ResetKey, MakeIterator, CheckKeyIterator) rejects a key iterator whose
+    keeper points to the nested map of another object; nothing changes -/
+theorem C15_multimap_key_foreign_rejected (w : MWorld) (op : MOp) (h : HPos) (o : Bool) (c' : Nat) (hh : op.khandle = some h)
+    (ht : op.on = some o) (hc : h.kp.cell = some c') (hne : c' ≠ (w.obj o).kcell) : w.step op = (w, none) :=
+  MWorld.foreign_key_rejected w op h o c' hh ht hc hne
+
+/-- "an iterator of another container", value iterators (Remove(iter), MakeMutableIterator, CheckIterator): the value keeper
+    or the key keeper belongs to another object -/
+theorem C15_multimap_value_foreign_rejected (w : MWorld) (op : MOp) (it : VIt) (o : Bool) (hh : op.vhandle = some it)
+    (ht : op.on = some o) (hv : it.vidx.isSome = true)
+    (hc : (∃ c', it.vp.cell = some c' ∧ c' ≠ (w.obj o).vcell) ∨ (∃ c', it.kit.kp.cell = some c' ∧ c' ≠ (w.obj o).kcell)) :
+    w.step op = (w, none) :=
+  MWorld.foreign_value_rejected w op it o hh ht hv hc
+
+/-- **stale_rejected** at the level of the two-object world: every entry point that needs a key iterator (`MOp.khandle`) /
+    takes a value iterator (`MOp.vhandle`) throws on a stale one and returns the world unchanged -/
+theorem C15_multimap_world_stale_rejected (w : MWorld) (op : MOp) :
+    (∀ h, op.khandle = some h → Stale h.kp w.cs → w.step op = (w, none)) ∧
+    (∀ it, op.vhandle = some it → it.vidx.isSome = true → (Stale it.vp w.cs ∨ Stale it.kit.kp w.cs) → w.step op = (w, none)) :=
+  ⟨fun h hh hs => MWorld.key_stale_rejected w op h hh hs, fun it hh hv hs => MWorld.value_stale_rejected w op it hh hv hs⟩
+
+/-- **bump_on_mutation** for every entry point of the world (complete list `MOp`, ResetKey aside, Swap included): the four cells
+    stay distinct, no counter decreases, each object keeps its value cell, the key version of an object moves whenever its
+    key list or nested capacity changed, and its key or value version whenever anything in it changed.
+    (`CapOK`: the capacity reported after an insertion is positive; `CapInv`: a map without buckets holds no key.) -/
+theorem C15_multimap_world_bump_on_mutation (w : MWorld) (hw : w.WF) (hi : w.CapInv) (op : MOp) (hcap : op.CapOK)
+    (hnr : ∀ o h k, op ≠ .resetKey o h k) :
+    (w.step op).1.WF ∧ (w.step op).1.CapInv ∧ (∀ c, w.cs c ≤ (w.step op).1.cs c) ∧
+    (∀ kc, (w.step op).1.kshape kc ≠ w.kshape kc → w.cs kc < (w.step op).1.cs kc) ∧
+    (∀ kc vc, w.vcellOf kc = some vc → (w.step op).1.content kc ≠ w.content kc →
+      w.cs kc < (w.step op).1.cs kc ∨ w.cs vc < (w.step op).1.cs vc) :=
+  let f := MWorld.step_facts w hw hi op hcap hnr
+  ⟨f.wf, f.inv, f.mono, f.kbump, f.vbump⟩
+
+/-- **all (state, invalidating operation, subsequent use) triples**, key iterators: made in any world `w0`, any history in which
+    some call changed the key set or the nested capacity of its map (fewer than 2^64 increments), any subsequent use -/
+theorem C15_multimap_history_key_stale (w0 : MWorld) (hw : w0.WF) (hi : w0.CapInv) (ops : List MOp) (hc : ∀ op ∈ ops, op.CapOK)
+    (kc : Nat) (op : MOp) (h : HPos) (hh : op.khandle = some h) (hk : h.kp = snap w0.cs kc) (hch : MWorld.SomeKeyChange kc w0 ops)
+    (hlt : (w0.run ops).cs kc < w0.cs kc + W) : (w0.run ops).step op = (w0.run ops, none) :=
+  MWorld.history_key_stale_rejected w0 hw hi ops hc kc op h hh hk hch hlt
+
+/-- … value iterators: made in `w0` (keepers of the value version `vc` and the key version `kc` of one object), any history in
+    which some call changed anything in that object (a value added or removed, a key inserted or removed, Clear …) -/
+theorem C15_multimap_history_value_stale (w0 : MWorld) (hw : w0.WF) (hi : w0.CapInv) (ops : List MOp) (hc : ∀ op ∈ ops, op.CapOK)
+    (kc vc : Nat) (hvc : w0.vcellOf kc = some vc) (op : MOp) (it : VIt) (hh : op.vhandle = some it) (hv : it.vidx.isSome = true)
+    (hvp : it.vp = snap w0.cs vc) (hkp : it.kit.kp = snap w0.cs kc) (hch : MWorld.SomeChange kc w0 ops)
+    (hlt1 : (w0.run ops).cs kc < w0.cs kc + W) (hlt2 : (w0.run ops).cs vc < w0.cs vc + W) :
+    (w0.run ops).step op = (w0.run ops, none) :=
+  MWorld.history_value_stale_rejected w0 hw hi ops hc kc vc hvc op it hh hv hvp hkp hch hlt1 hlt2
+
+/-- "operations that did not modify the container": a call that throws, a non-mutating entry point (queries, uses of
+    iterators, ResetKey, Swap), a call on the other object, `InsertKey` of a stored key and `RemoveKey` of an absent key
+    increment neither version of the object with key cell `kc` -/
+theorem C15_multimap_no_increment_without_change (w : MWorld) (hw : w.WF) (hi : w.CapInv) (op : MOp) (kc vc : Nat)
+    (hvc : w.vcellOf kc = some vc) (hq : MWorld.QuietStep kc w op) :
+    (w.step op).1.cs kc = w.cs kc ∧ (w.step op).1.cs vc = w.cs vc :=
+  MWorld.step_quiet w hw hi op kc vc hvc hq
+
+/-- **fresh_accepted over histories**, key iterators: after any history of such calls a key iterator made in `w0` for a key that
+    is still stored is accepted by every entry point -/
+theorem C15_multimap_history_key_fresh (w0 : MWorld) (hw : w0.WF) (hi : w0.CapInv) (ops : List MOp) (hc : ∀ op ∈ ops, op.CapOK)
+    (kc vc : Nat) (hvc : w0.vcellOf kc = some vc) (hq : MWorld.AllQuiet kc w0 ops) (m : MMap) (hm : (w0.run ops).byKeyCell kc = some m)
+    (k : Nat) (mv : Bool) (vs : List Nat) (hk : m.vals k = some vs) (hcap : m.cap ≠ 0) :
+    let h : HPos := ⟨snap w0.cs kc, some k, mv⟩
+    let cs := (w0.run ops).cs
+    (m.kderef cs h).isSome = true ∧ (∀ v, (m.addAt cs h v).isSome = true) ∧ (∀ to, (m.removeValues cs h to).isSome = true) ∧
+    (∀ nx, (m.removeKey cs h nx).isSome = true) ∧ (∀ k', (m.resetKey cs h k').isSome = true) ∧
+    (∀ i to, i < vs.length → (m.removeAt cs h i to).isSome = true) ∧ (∀ i to, i ≤ vs.length → (m.makeIt cs h i to).isSome = true) :=
+  MWorld.history_key_fresh_accepted w0 hw hi ops hc kc vc hvc hq m hm k mv vs hk hcap
+
+/-- … value iterators pointing at a value that is still stored -/
+theorem C15_multimap_history_value_fresh (w0 : MWorld) (hw : w0.WF) (hi : w0.CapInv) (ops : List MOp) (hc : ∀ op ∈ ops, op.CapOK)
+    (kc vc : Nat) (hvc : w0.vcellOf kc = some vc) (hq : MWorld.AllQuiet kc w0 ops) (m : MMap) (hm : (w0.run ops).byKeyCell kc = some m)
+    (k i : Nat) (mv : Bool) (vs : List Nat) (hk : m.vals k = some vs) (hi' : i < vs.length) :
+    let it : VIt := ⟨⟨snap w0.cs kc, some k, mv⟩, snap w0.cs vc, some i⟩
+    let cs := (w0.run ops).cs
+    (m.vderef cs it).isSome = true ∧ (∀ to, (MMap.vinc cs it to).isSome = true) ∧ (∀ to, (m.remove cs it to).isSome = true) ∧
+    (m.makeMutable cs it).isSome = true ∧ (∀ ae, (m.checkIt cs it ae).isSome = true) :=
+  MWorld.history_value_fresh_accepted w0 hw hi ops hc kc vc hvc hq m hm k i mv vs hk hi'
 
 /-! ## DataTable: row references, selections, hash bounds -/
 
@@ -330,6 +420,110 @@ theorem C15_table_index_table (t : Table) (cs : Cells) (s : Sel) (i n a b : Nat)
     (s.remove i n).isSome = decide (i + n ≤ s.raws.length) :=
   ⟨Table.at_isSome t cs i, Table.removeNum_isSome t cs i, Table.tryInsert_isSome t cs i a b, Sel.at_isSome s i, Sel.remove_isSome s i n⟩
 
+/-! ### DataTable as a world of two tables (`BWorld`, entry points `BOp` - the step function the driver runs) -/
+
+/-- "throws std::invalid_argument and leaves the container unchanged": a call that throws returns the world it was given -/
+theorem C15_table_rejected_unchanged (w : BWorld) (op : BOp) (h : (w.step op).2 = none) : (w.step op).1 = w :=
+  BWorld.step_reject_unchanged w op h
+
+/-- **stale_rejected**: every entry point that is given a stale row reference - `Get` / `GetRaw`, TryUpdate / Update of a column,
+    Remove / Extract, MakeMutableReference, NewRow(reference), Remove(begin, end) / Assign(begin, end) with the reference anywhere
+    in the range, Selection::Set / Add / Insert - throws and changes nothing -/
+theorem C15_table_world_stale_rejected (w : BWorld) (op : BOp) (r : RowRef) (hr : r ∈ op.refs) (hs : Stale r.kp w.cs) :
+    w.step op = (w, none) :=
+  BWorld.stale_rejected w op r hr hs
+
+/-- "an iterator of another container": a row reference of another table (another column-list object) -/
+theorem C15_table_world_foreign_rejected (w : BWorld) (op : BOp) (r : RowRef) (o : Bool) (hr : r ∈ op.refs) (ho : op.on = some o)
+    (hne : r.tbl ≠ (w.obj o).id) : w.step op = (w, none) :=
+  BWorld.foreign_rejected w op r o hr ho hne
+
+/-- … and it cannot be stored into a selection of the first table -/
+theorem C15_table_selection_foreign_store_rejected (w : BWorld) (s : Sel) (r : RowRef) (hne : s.tbl ≠ r.tbl) (i : Nat) :
+    w.step (.selSet s i r) = (w, none) ∧ w.step (.selAdd s r) = (w, none) ∧ w.step (.selIns s i r) = (w, none) :=
+  BWorld.sel_foreign_rejected w s r hne i
+
+/-- "a table row reference or selection": a stale selection / row pointer throws on Sort / Group / bounds by column, and every
+    reference taken out of it is stale; stale hash bounds cannot be indexed -/
+theorem C15_table_world_selection_bounds_stale (w : BWorld) :
+    (∀ s : Sel, Stale s.kp w.cs → (s.raws ≠ [] → w.step (.selRead s) = (w, none)) ∧
+      (∀ i r, (w.step (.selAt s i)).2 = some (.ref r) → Stale r.kp w.cs)) ∧
+    (∀ (m : MBounds) (i : Nat), Stale m.ckp w.cs → w.step (.mbAt m i) = (w, none)) :=
+  ⟨fun s hs => BWorld.sel_stale_rejected w s hs, fun m i hs => BWorld.bounds_stale_rejected w m hs i⟩
+
+/-- "an out-of-range index": row numbers (operator[], Remove / Extract, TryUpdate, TryInsert), selection indexes and counts,
+    bounds indexes: `std::invalid_argument`, world unchanged -/
+theorem C15_table_index_rejected (w : BWorld) (o : Bool) (s : Sel) (m : MBounds) (i n a b : Nat) :
+    ((w.obj o).rows.length ≤ i → w.step (.at_ o i) = (w, none) ∧ w.step (.rmNum o i) = (w, none) ∧ w.step (.updRow o i a b) = (w, none)) ∧
+    ((w.obj o).rows.length < i → w.step (.insert o i a b) = (w, none)) ∧
+    (s.raws.length ≤ i → w.step (.selAt s i) = (w, none)) ∧
+    (s.raws.length < i + n → w.step (.selRm s i n) = (w, none)) ∧
+    (m.raws.length ≤ i → w.step (.mbAt m i) = (w, none)) :=
+  BWorld.index_rejected w o s m i n a b
+
+/-- **bump_on_mutation** for every entry point (complete list `BOp`): column lists and cells stay, no counter decreases, the
+    change version of a table moves whenever its rows changed and its remove version whenever one of its rows is gone -/
+theorem C15_table_world_bump_on_mutation (w : BWorld) (hw : w.WF) (op : BOp) :
+    (w.step op).1.WF ∧ (∀ c, w.cs c ≤ (w.step op).1.cs c) ∧
+    (∀ o, ((w.step op).1.obj o).id = (w.obj o).id ∧ ((w.step op).1.obj o).ccell = (w.obj o).ccell ∧ ((w.step op).1.obj o).rcell = (w.obj o).rcell) ∧
+    (∀ o, ((w.step op).1.obj o).rows ≠ (w.obj o).rows → w.cs (w.obj o).ccell < (w.step op).1.cs (w.obj o).ccell) ∧
+    (∀ o, BWorld.Gone (w.obj o).rows ((w.step op).1.obj o).rows → w.cs (w.obj o).rcell < (w.step op).1.cs (w.obj o).rcell) :=
+  let f := BWorld.step_facts w hw op
+  ⟨f.wf, f.mono, f.same, f.cbump, f.rbump⟩
+
+/-- **all (state, invalidating operation, subsequent use) triples**, row references: a reference whose keeper was taken in any
+    world `w0` (operator[], an insertion, out of a selection / row pointer / bounds made in `w0` …), any history in which a row
+    of its table was removed or replaced, any subsequent use -/
+theorem C15_table_history_ref_stale (w0 : BWorld) (hw : w0.WF) (ops : List BOp) (o : Bool) (op : BOp) (r : RowRef)
+    (hr : r ∈ op.refs) (hk : r.kp = snap w0.cs (w0.obj o).rcell) (hrm : BWorld.SomeRemoval o w0 ops)
+    (hlt : (w0.run ops).cs (w0.obj o).rcell < w0.cs (w0.obj o).rcell + W) : (w0.run ops).step op = (w0.run ops, none) :=
+  BWorld.history_ref_stale_rejected w0 hw ops o op r hr hk hrm hlt
+
+/-- … selections and row pointers made in `w0` -/
+theorem C15_table_history_selection_stale (w0 : BWorld) (hw : w0.WF) (ops : List BOp) (o : Bool) (s : Sel)
+    (hk : s.kp = snap w0.cs (w0.obj o).rcell) (hrm : BWorld.SomeRemoval o w0 ops)
+    (hlt : (w0.run ops).cs (w0.obj o).rcell < w0.cs (w0.obj o).rcell + W) :
+    (s.raws ≠ [] → (w0.run ops).step (.selRead s) = (w0.run ops, none)) ∧
+    (∀ i r, ((w0.run ops).step (.selAt s i)).2 = some (.ref r) → ∀ op, r ∈ op.refs → (w0.run ops).step op = (w0.run ops, none)) :=
+  BWorld.history_sel_stale_rejected w0 hw ops o s hk hrm hlt
+
+/-- … hash bounds made in `w0`: rejected after any history that changed the rows of their table in any way -/
+theorem C15_table_history_bounds_stale (w0 : BWorld) (hw : w0.WF) (ops : List BOp) (o : Bool) (m : MBounds)
+    (hk : m.ckp = snap w0.cs (w0.obj o).ccell) (hch : BWorld.SomeChange o w0 ops)
+    (hlt : (w0.run ops).cs (w0.obj o).ccell < w0.cs (w0.obj o).ccell + W) (i : Nat) :
+    (w0.run ops).step (.mbAt m i) = (w0.run ops, none) :=
+  BWorld.history_bounds_stale_rejected w0 hw ops o m hk hch hlt i
+
+/-- "operations that did not modify the container": a call that throws, a non-mutating entry point, a call on the other table and
+    an insertion / replacement refused by the unique index increment no version of table `o`; insertions and single-column
+    updates do not increment its remove version (`chg = false`) -/
+theorem C15_table_no_increment_without_reason (w : BWorld) (hw : w.WF) (o : Bool) (chg : Bool) (op : BOp)
+    (hq : BWorld.QuietStep o chg w op) :
+    (w.step op).1.cs (w.obj o).rcell = w.cs (w.obj o).rcell ∧
+    (chg = true → (w.step op).1.cs (w.obj o).ccell = w.cs (w.obj o).ccell) :=
+  BWorld.step_quiet w hw o chg op hq
+
+/-- **fresh_accepted over histories**, row references -/
+theorem C15_table_history_ref_fresh (w0 : BWorld) (hw : w0.WF) (ops : List BOp) (o : Bool) (hq : BWorld.AllQuiet o false w0 ops) (raw : Nat) :
+    let r := (w0.obj o).mkRef w0.cs raw
+    let w := w0.run ops
+    (w.step (.get r)).2.isSome = true ∧ (∀ b, (w.step (.updB o r b)).2.isSome = true) ∧ (w.step (.rmRef o r)).2.isSome = true ∧
+    (w.step (.mkMut o r)).2.isSome = true ∧ (w.step (.newRow r)).2.isSome = true :=
+  BWorld.history_ref_fresh_accepted w0 hw ops o hq raw
+
+/-- … selections and row pointers -/
+theorem C15_table_history_selection_fresh (w0 : BWorld) (hw : w0.WF) (ops : List BOp) (o : Bool) (hq : BWorld.AllQuiet o false w0 ops)
+    (s : Sel) (hk : s.kp = snap w0.cs (w0.obj o).rcell) :
+    let w := w0.run ops
+    (w.step (.selRead s)).2.isSome = true ∧ (∀ i r, (w.step (.selAt s i)).2 = some (.ref r) → (w.step (.get r)).2.isSome = true) :=
+  BWorld.history_sel_fresh_accepted w0 hw ops o hq s hk
+
+/-- … hash bounds (they also watch the change version) -/
+theorem C15_table_history_bounds_fresh (w0 : BWorld) (hw : w0.WF) (ops : List BOp) (o : Bool) (hq : BWorld.AllQuiet o true w0 ops)
+    (m : MBounds) (hk : m.ckp = snap w0.cs (w0.obj o).ccell) (i : Nat) (hi : i < m.raws.length) :
+    ((w0.run ops).step (.mbAt m i)).2.isSome = true :=
+  BWorld.history_bounds_fresh_accepted w0 hw ops o hq m hk i hi
+
 /-! ## Array with index iterators, SegmentedArray -/
 
 /-- "an out-of-range index": the decision table of the index-checked entry points, for all natural arguments (no size_t
@@ -362,7 +556,8 @@ theorem C15_sites_accounted :
     Extracted.verRemoveIncSites = incSitesRemove.length ∧ Extracted.verHashSetPosChecks = checkSitesHashSet.length ∧
     Extracted.verTreeSetIterChecks = checkSitesTreeSet.length ∧ Extracted.verMultiMapIterChecks = checkSitesMultiMap.length ∧
     Extracted.verKeeperCheckShape = 1 ∧ Extracted.verKeeperCheckAtShape = 1 ∧ Extracted.verCheckThrowsInvalidArgument = 1 ∧
-    Extracted.verCrewIncSites = 1 ∧ Extracted.verSelectionReadChecks = 3 := by
+    Extracted.verCrewIncSites = 1 ∧ Extracted.verSelectionReadChecks = 3 ∧
+    Extracted.verTableRefChecks = checkSitesTable.length ∧ Extracted.verSelectionRefChecks = checkSitesSelection.length := by
   decide
 
 /-! ## Non-vacuity: concrete states that satisfy the hypotheses -/
@@ -422,5 +617,58 @@ example :
     simp [Table.removeNum, exTbl] at hx; exact hx.symm
   subst this
   decide
+
+/-- the multimap `exM` as object A (key cell 0, value cell 1) next to an empty object B (cells 2, 3) -/
+def exMW : MWorld := ⟨fun _ => 0, exM, ⟨2, 3, [], 0⟩⟩
+
+example : exMW.WF := by simp [MWorld.WF, exMW, exM]
+example : exMW.CapInv := ⟨fun h => absurd h (by decide), fun _ => rfl⟩
+example : exMW.vcellOf 0 = some 1 := by decide
+-- `InsertKey(3)` changes the key set of A: key iterators and value iterators made before are rejected afterwards
+example : MWorld.SomeKeyChange 0 exMW [.findKey true 4, .insertKey false 3 5] := by
+  right; left; exact ⟨by intro o h k; simp, by decide⟩
+example : MWorld.SomeChange 0 exMW [.findKey true 4, .insertKey false 3 5] := by
+  right; left; exact ⟨by intro o h k; simp, by decide⟩
+example : ((exMW.run [.findKey true 4, .insertKey false 3 5]).step (.vderef ⟨⟨snap exMW.cs 0, some 1, true⟩, snap exMW.cs 1, some 0⟩)).2 = none ∧
+          ((exMW.run [.findKey true 4, .insertKey false 3 5]).step (.removeValues false ⟨snap exMW.cs 0, some 1, false⟩ none)).2 = none := by
+  decide
+-- `Find`, `InsertKey` of a stored key, `RemoveKey` of an absent key and an `Add` to the OTHER map are quiet for A
+example : MWorld.AllQuiet 0 exMW [.findKey false 1, .insertKey false 1 5, .removeKeyByKey false 9, .add true 7 70 5] :=
+  ⟨Or.inr (Or.inl rfl), Or.inr (Or.inr (Or.inr ⟨trivial, by decide⟩)), Or.inr (Or.inr (Or.inr ⟨trivial, by decide⟩)),
+   Or.inr (Or.inr (Or.inl ⟨true, rfl, by decide⟩)), trivial⟩
+example : ((exMW.run [.findKey false 1, .insertKey false 1 5, .removeKeyByKey false 9, .add true 7 70 5]).step
+            (.remove false ⟨⟨snap exMW.cs 0, some 1, true⟩, snap exMW.cs 1, some 0⟩ none)).2.isSome = true := by
+  decide
+-- a key iterator of A used with B is foreign
+example : (exMW.step (.removeValues true ⟨snap exMW.cs 0, some 1, false⟩ none)).2 = none := by decide
+
+/-- the table `exTbl` as table A (change cell 0, remove cell 1) next to a table B with one row (cells 2, 3) -/
+def exBW : BWorld := ⟨fun _ => 0, exTbl, ⟨8, 2, 3, [⟨100, 10, 5⟩], 101⟩⟩
+
+example : exBW.WF := by simp [BWorld.WF, exBW, exTbl]
+-- adding a row and then removing row 1: a row is gone, the rows changed
+example : BWorld.SomeRemoval false exBW [.add false 13 6, .rmNum false 1] := by
+  right; left; exact ⟨⟨1, 11, 5⟩, by decide, by decide⟩
+example : BWorld.SomeChange false exBW [.add false 13 6] := by
+  left; decide
+-- a reference, a selection and hash bounds made before are rejected afterwards; a reference into A is foreign for B
+example :
+    let r := exBW.a.mkRef exBW.cs 2
+    let w := exBW.run [.add false 13 6, .rmNum false 1]
+    (w.step (.get r)).2 = none ∧ (w.step (.rmRefs false [exBW.a.mkRef w.cs 0, r] false)).2 = none ∧
+    (w.step (.selRead (exBW.a.select exBW.cs 1 0))).2 = none ∧ (w.step (.mbAt (exBW.a.findMulti exBW.cs 5) 0)).2 = none ∧
+    (exBW.step (.rmRef true r)).2 = none := by
+  decide
+-- insertions, a single-column update, a refused insertion, `Clear` of the OTHER table and `Select` are quiet for references into A
+example : BWorld.AllQuiet false false exBW
+    [.add false 13 6, .updB false (exBW.a.mkRef exBW.cs 0) 9, .add false 10 1, .clear true, .select false 1 0] :=
+  ⟨Or.inr (Or.inr (Or.inr (Or.inr ⟨rfl, trivial⟩))), Or.inr (Or.inr (Or.inr (Or.inr ⟨rfl, trivial⟩))),
+   Or.inr (Or.inr (Or.inr (Or.inl ⟨_, rfl⟩))), Or.inr (Or.inr (Or.inl rfl)), Or.inr (Or.inl rfl), trivial⟩
+example : ((exBW.run [.add false 13 6, .updB false (exBW.a.mkRef exBW.cs 0) 9, .add false 10 1, .clear true, .select false 1 0]).step
+            (.rmRef false (exBW.a.mkRef exBW.cs 2))).2.isSome = true := by
+  decide
+-- for hash bounds (change version) only calls that leave the rows alone are quiet
+example : BWorld.AllQuiet false true exBW [.add false 10 1, .clear true, .findM false 5] :=
+  ⟨Or.inr (Or.inr (Or.inr (Or.inl ⟨_, rfl⟩))), Or.inr (Or.inr (Or.inl rfl)), Or.inr (Or.inl rfl), trivial⟩
 
 end Momo.Ver
